@@ -273,11 +273,24 @@ pub fn lzw_encode(data: &[u8], opts: LzwOpts) -> Vec<u8> {
     lzw_encode_stats(data, opts, false).0
 }
 
+thread_local! {
+    // child[(w << 8) | c] = code of string(w)+c, 0 = none; kept per thread and always left zeroed
+    static LZW_CHILD: std::cell::RefCell<Vec<u16>> = const { std::cell::RefCell::new(Vec::new()) };
+}
+
 pub fn lzw_encode_stats(data: &[u8], opts: LzwOpts, trace: bool) -> (Vec<u8>, LzwStats) {
+    LZW_CHILD.with(|c| {
+        let mut child = c.borrow_mut();
+        if child.is_empty() {
+            child.resize(4096 * 256, 0);
+        }
+        lzw_encode_inner(data, opts, trace, &mut child)
+    })
+}
+
+fn lzw_encode_inner(data: &[u8], opts: LzwOpts, trace: bool, child: &mut [u16]) -> (Vec<u8>, LzwStats) {
     let mut st = LzwStats::default();
     let mut bw = BitWriter { out: Vec::with_capacity(data.len() / 2 + 16), acc: 0, nbits: 0 };
-    // child[(w << 8) | c] = code of string(w)+c, 0 = none
-    let mut child: Vec<u16> = vec![0; 4096 * 256];
     let mut used: Vec<u32> = Vec::with_capacity(4096);
     let mut width: u32 = 9;
     let mut next: u16 = 258;
@@ -341,6 +354,9 @@ pub fn lzw_encode_stats(data: &[u8], opts: LzwOpts, trace: bool) -> (Vec<u8>, Lz
     bump(next, &mut width);
     st.max_width = st.max_width.max(width);
     bw.put(257, width);
+    for k in used.drain(..) {
+        child[k as usize] = 0;
+    }
     (bw.finish(), st)
 }
 
